@@ -1,6 +1,6 @@
 (* C20 - Type-identifier conversions are lossless and consistent for all values.
    Every statement quantifies over all N (hence over all 2^32 u32 values). *)
-Require Import Bytes Outcome Render TagType RunCommon TypesSpec C20Proofs.
+Require Import Bytes Outcome Render TagType HeaderTags RunCommon TypesSpec C20Proofs.
 From Coq Require Import String.
 
 Theorem C20_roundtrip : forall x,
@@ -71,3 +71,8 @@ Theorem C20_eq_any : forall t i v,
   eq_type_u32 t v = (u32_of_tagtype t =? v) /\ eq_u32_type v t = (u32_of_tagtype t =? v).
 Proof. exact eq_any. Qed.
 Print Assumptions C20_eq_any.
+
+(* HeaderTagType::count() is the number of header-tag kinds the model (and the specification) knows *)
+Theorem C20_header_tag_types : HDR_TAG_TYPES = len HeaderTags.all_hkinds.
+Proof. reflexivity. Qed.
+Print Assumptions C20_header_tag_types.
